@@ -37,7 +37,7 @@ def main():
         rc, out = sh("go build ./... && go test -vet=off -count=1 ./... 2>&1 | grep -v 'no test files'", cwd=wt)
         meta["repo_tests_pass_with_patch"] = rc == 0 and "FAIL" not in out
         # demo: find go files in _seed, locate the package dir from the agent's live copy
-        demos = [f for f in glob.glob(os.path.join(src, "*.go"))]
+        demos = [f for f in glob.glob(os.path.join(src, "*.go")) if "audit" not in os.path.basename(f)]  # audit tests of the unchanged tree are not demonstrations
         meta["demo_files"] = [os.path.basename(d) for d in demos]
         demo_results = {}
         for d in demos:
